@@ -106,8 +106,40 @@ def run_batch(rep, pid, preset, cases, random_n, max_cases, batch):
     return metas, indomain
 
 
+def design_level(rep, pid, preset, tier):
+    """parser -> renderer -> deserializer on the model (MC_Deser.tla): inside the domain of the property every history
+    within the bounds deserializes, and nothing is left without a field"""
+    from . import render_common as rc0
+    inv = "DeserSoundQuickXml" if preset == "quick_xml" else "DeserSoundSerdeXmlRs"
+    guard = "NeverRichC02" if preset == "quick_xml" else "NeverRichC13"
+    k = dict(HashOrder=False, MaxDepth=3, MaxText=1, MaxIgn=0, TextKinds={"Text"}, IgnKinds=set(), Forms={"Start", "Empty"},
+             Faults=False, EmptyDocs=False, Emit=False)
+    s = rc0.tla_str
+    a1 = "{<<>>, <<%s>>}" % s("p")
+    a2 = "{<<>>, <<%s>>, <<%s, %s>>}" % (s("p"), s("q"), s("p"))
+    if preset == "quick_xml":
+        insts = [(["ns:a", "b"], a1, "<<3, 1>>")] if tier == "quick" else \
+                [(["ns:a", "b"], a2, "<<3, 2>>"), (["type", "Item"], "{<<>>, <<%s>>}" % s("type"), "<<3, 2>>"), (["a-b", "p"], a1, "<<4, 1>>")]
+    else:
+        insts = [(["a", "b"], a1, "<<3, 1>>")] if tier == "quick" else \
+                [(["a", "b"], a2, "<<3, 2>>"), (["type", "Item"], "{<<>>, <<%s>>}" % s("self"), "<<3, 2>>"), (["a-b", "a"], a1, "<<4, 1>>")]
+    for n, (names, attrs, budget) in enumerate(insts):
+        defs = {"Names": rc0.tla_pool(names), "RootName": s("r"), "AttrLists": attrs, "OccBudget": budget}
+        r = c.run_tlc("MC_Deser", c.cfg_text(spec="MCSpec", constants=k, invariants=["TypeOK", inv]), "%s-deser-%d" % (pid, n),
+                      coverage=False, timeout=2400, defs=defs)
+        pc.model_violation(rep, r, "MC_Deser")
+        rep.add(states=r.distinct, transitions=r.generated, pipeline_states=r.distinct)
+        if n == 0:
+            # vacuity guard: a history inside the domain whose structs have Option and Vec fields is reachable
+            g = c.run_tlc("MC_Deser", c.cfg_text(spec="MCSpec", constants=k, invariants=[guard]), "%s-deser-guard" % pid,
+                          coverage=False, timeout=600, defs=defs)
+            if not g.violated:
+                raise c.ToolError("MC_Deser: no history inside the domain with Option and Vec fields is reachable (vacuous instance)")
+
+
 def check(rep, pid, preset, tier, rule):
     c.build_harness()
+    design_level(rep, pid, preset, tier)
     batches = []
     # programs from the TLC-enumerated histories (children / attrs / text within small bounds) ...
     r, cases = pc.run_instance(pid, "attrs", "quick", invariants=["TypeOK", "Exact"])
